@@ -111,6 +111,15 @@ func gen(g *vh.Gen) {
 	g.Emit("mem", "0", "1", "-", "a:1:1:100,p:1")
 	g.Emit("mem", "0", "1", "a:1:90:400", "a:1:1:400,p:1")
 	g.Emit("mem", "1", "1", "a:1:90:400", "a:1:1:400,a:1:2:400")
+	// cap and size limit together: a delivery overflowing mailbox 1's cap while the enforcer evicts (for size, on
+	// behalf of a delivery elsewhere) the oldest message, which lives in mailbox 1 too
+	g.Emit("mem", "2", "1", "a:1:90:400,a:1:91:400", "a:1:1:400,a:2:2:600")
+	g.Emit("mem", "1", "1", "a:1:90:600", "a:1:1:100,a:2:2:600")
+	// the first ever delivery to a mailbox (its entry only just created, or created earlier by a mere lookup)
+	// against a walk over all mailboxes
+	g.Emit("mem", "0", "0", "-", "a:1:1:10,v")
+	g.Emit("mem", "0", "0", "-", "a:1:1:10,v,l:1")
+	g.Emit("mem", "1", "0", "g:2:x", "a:2:1:10,v,g:2:x")
 	g.Emit("mem", "0", "0", "a:1:90:10", "a:1:1:10,r:1:1,l:1")
 	g.Emit("mem", "1", "0", "a:1:90:10", "a:1:1:10,a:1:2:10,v")
 	g.Emit("file", geo(), "a:1:90:10", "p:1,v")
